@@ -285,11 +285,52 @@ func AsCmp(v ssa.Value) (c Cmp, pos bool, ok bool) {
 		case *ssa.BinOp:
 			switch x.Op {
 			case token.EQL, token.NEQ, token.LSS, token.LEQ, token.GTR, token.GEQ:
-				return Cmp{Op: x.Op, X: x.X, Y: x.Y, Instr: x}, pos, true
+				c = Cmp{Op: x.Op, X: x.X, Y: x.Y, Instr: x}
+				// canonical form: a constant operand stands on the right; a negation of a
+				// comparison of non-float operands is folded into the operator
+				if _, xk := c.X.(*ssa.Const); xk {
+					if _, yk := c.Y.(*ssa.Const); !yk {
+						c = c.Mirror()
+					}
+				}
+				if !pos && !isFloatType(c.X.Type()) {
+					c.Op = NegOp(c.Op)
+					pos = true
+				}
+				return c, pos, true
 			}
 		}
 		return Cmp{}, pos, false
 	}
+}
+
+func isFloatType(t types.Type) bool {
+	b, ok := t.Underlying().(*types.Basic)
+	return ok && b.Info()&(types.IsFloat|types.IsComplex) != 0
+}
+
+// Mirror exchanges the operands: a < b becomes b > a.
+func (c Cmp) Mirror() Cmp {
+	c.X, c.Y, c.Op = c.Y, c.X, SwapOp(c.Op)
+	return c
+}
+
+// Orient mirrors the comparison, if necessary, so that its operator is in the family of op
+// (GTR, GEQ or LSS, LEQ). Equality tests are returned unchanged.
+func (c Cmp) Orient(op token.Token) Cmp {
+	gt := func(o token.Token) int {
+		switch o {
+		case token.GTR, token.GEQ:
+			return 1
+		case token.LSS, token.LEQ:
+			return -1
+		}
+		return 0
+	}
+	if gt(op)*gt(c.Op) < 0 {
+		return c.Mirror()
+	}
+	return c
 }
 
 // StripNot removes boolean negations: v is true iff (result == pos).
@@ -402,4 +443,40 @@ func Referrers(v ssa.Value) []ssa.Instruction {
 		return nil
 	}
 	return *r
+}
+
+// AsCmpDir is AsCmp followed by Orient(op): mirrored spellings of one comparison give the same result.
+func AsCmpDir(v ssa.Value, op token.Token) (c Cmp, pos bool, ok bool) {
+	c, pos, ok = AsCmp(v)
+	if ok {
+		c = c.Orient(op)
+	}
+	return
+}
+
+// IfCmp reads the test of an If as the comparison "X want Y" and returns the successor index on
+// which that comparison holds: mirrored (b < a) and negated (!(a <= b), or the branches exchanged)
+// spellings of a > b all give (a > b, then-successor). exact is false when a negation of a
+// floating-point comparison was folded: the returned comparison then also "holds" on that
+// successor for unordered (NaN) operands.
+func IfCmp(iff *ssa.If, want token.Token) (c Cmp, succ int, exact bool, ok bool) {
+	c, pos, isCmp := AsCmp(iff.Cond)
+	if !isCmp {
+		return Cmp{}, 0, false, false
+	}
+	succ = 0
+	if !pos {
+		succ = 1
+	}
+	c = c.Orient(want)
+	if c.Op == want {
+		return c, succ, true, true
+	}
+	n := c
+	n.Op = NegOp(c.Op)
+	n = n.Orient(want)
+	if n.Op == want {
+		return n, 1 - succ, !isFloatType(c.X.Type()), true
+	}
+	return Cmp{}, 0, false, false
 }
